@@ -26,7 +26,7 @@ var copyKinds = []string{"Object", "Actor", "Collection", "OrderedCollection", "
 type copyCase struct {
 	Kind   vmodel.StructKind
 	Fields []vmodel.Field
-	Combos []int // per field: bit0 = set in to, bit1 = set in from
+	Combos []int    // per field: bit0 = set in to, bit1 = set in from
 	Shapes []string // per field, optional: the value shape on both sides (default: the first shape of the type)
 }
 
@@ -373,7 +373,7 @@ func init() {
 		k := vmodel.Kinds[vmodel.KindIndex(kn)]
 		for _, f := range copyFields(k) {
 			for _, sh := range vmodel.FieldShapes(f.Type, true) {
-				if strings.HasSuffix(sh, "-empty") {
+				if strings.HasSuffix(sh, "-empty") || sh == "nlv-blank-only" {
 					continue // set-but-empty says nothing: the single-property layer has the unset combinations
 				}
 				shaped = append(shaped, shapedCase{k, f, 2, sh}, shapedCase{k, f, 3, sh})
